@@ -469,13 +469,6 @@ func main() {
 	if v := os.Getenv("C11_REOPEN"); v != "" {
 		fmt.Sscan(v, &reopenEvery)
 	}
-	depth := 4
-	if r.Thorough() {
-		depth = 5
-	}
-	if v := os.Getenv("C11_DEPTH"); v != "" {
-		fmt.Sscan(v, &depth)
-	}
 	opsPrefix := []int{fx.ByName["opAdd(1,K1)"], fx.ByName["opAdd(2,K2)"], fx.ByName["opAdd(3,K3)"], fx.ByName["opAdd(4,K4)"]}
 	opsPrefix5 := append(append([]int{}, opsPrefix...), fx.ByName["opAdd(5,K5)"])
 	type cfg struct {
@@ -483,7 +476,19 @@ func main() {
 		prefix []int
 		depth  int
 	}
-	cfgs := []cfg{{1, nil, depth}, {1, opsPrefix, depth}, {5, opsPrefix5, depth - 1}}
+	// measured (transitions executed on the real handler): member/prefix depth 3: 4.0k, 5: 82.7k;
+	// empty depth 3: 8.1k, 4: 49.9k; not-a-member depth 2: 0.4k, 4: 11.5k (one more level is x4..x6)
+	cfgs := []cfg{{1, opsPrefix, 4}, {1, nil, 3}, {5, opsPrefix5, 3}}
+	if r.Thorough() {
+		cfgs = []cfg{{1, opsPrefix, 6}, {1, nil, 5}, {5, opsPrefix5, 5}}
+	}
+	if v := os.Getenv("C11_DEPTH"); v != "" {
+		var d int
+		fmt.Sscan(v, &d)
+		for i := range cfgs {
+			cfgs[i].depth = d
+		}
+	}
 	outcomes := map[string]int{}
 	exhaustive := true
 	var bounds []string
